@@ -379,6 +379,45 @@ def check_scale(nh, ri, explicit_le, second_tree):
     return v
 
 
+def check_char(cp, ri, typed):
+    """Hunk lines whose payload holds chr(cp) inside, at the start and at
+    the end; counts known by construction."""
+    ch = chr(cp)
+    nlk, le_opt, enc = RENDER[ri]
+    nl = {'unix': '\n', 'dos': '\r\n'}[nlk]
+    lines = ['--- a/f', '+++ b/f'] + \
+        hunk_lines('CDIC', payload='p' + ch + 'q') + \
+        hunk_lines('IID', 20, 20, payload=ch) + \
+        hunk_lines('DCI', 40, 41, payload='end' + ch)
+    try:
+        data = (nl.join(lines) + nl).encode(enc or 'utf-8')
+    except UnicodeEncodeError:
+        return None
+    attrs = {'meta': {'path': 'f'}, 'diff': data}
+    if le_opt:
+        attrs['diff_line_endings'] = le_opt
+    if enc:
+        attrs['diff_encoding'] = enc
+    if typed:
+        attrs['diff_type'] = 'text'
+    d = DiffX()
+    f = d.add_change().add_file(**attrs)
+    try:
+        d.generate_stats()
+    except Exception as e:
+        from mc.observe import site_of
+        return [('generate-stats-raised:%s:%s' % (type(e).__name__,
+                                                  site_of(e)), repr(e))]
+    want = {'insertions': 4, 'deletions': 3, 'lines changed': 7}
+    if f.meta.get('stats') != want:
+        import unicodedata
+        return [('file-stats-wrong:special-character:%s'
+                 % unicodedata.category(ch),
+                 'payload character U+%04X, rendering %r: stats %r expected '
+                 '%r' % (cp, RENDER[ri], f.meta.get('stats'), want))]
+    return []
+
+
 # ------------------------------------------------------------------ histories
 # generate_stats() on a tree that was already analysed and then edited must
 # give what a fresh tree in the same state gives (differential oracle: the
@@ -516,6 +555,11 @@ def plan(tier):
     for nh in (SCALE_HUNKS if tier == 'quick' else SCALE_HUNKS_T):
         for ri in range(len(SCALE_RENDER)):
             units.append(('scale', nh, ri))
+    # the character pass: one special character in the payload of hunk
+    # lines, every rendering that can encode it
+    from mc.alphabets import SPECIAL_CHARS
+    for lo in range(0, len(SPECIAL_CHARS), 10):
+        units.append(('chars', lo, lo + 10))
     # histories: generate, edit, (edit,) generate vs fresh tree
     nops = len(hist_ops(2))
     for base in range(3):
@@ -540,13 +584,19 @@ def plan(tier):
                 '~130 KB) x 9 renderings with multi-byte characters placed '
                 'just before every buffer-size boundary (1024/4096/8192/65536) '
                 'and BOM-prefixed big-endian text, in one and in two live '
-                'trees. Histories: generate_stats(), then every '
+                'trees. Character pass: each of the %d special characters '
+                '(controls, separators, str.splitlines() breakers, format '
+                'and normalisation-sensitive characters) in hunk payloads '
+                'x every rendering that can encode it. '
+                'Histories: generate_stats(), then every '
                 'sequence of 1-2 (thorough 3) edits from %d operations (stats '
                 'overwritten / deleted, diff_encoding / line_endings / type '
                 'changed, diff replaced, files added / removed, partial '
                 'generate calls), then generate_stats(): the tree must equal '
                 'a fresh tree rebuilt in the same state and analysed once.'
-                % (shapes, len(VARIANTS), len(RENDER), k, len(hist_ops(2))),
+                % (shapes, len(VARIANTS), len(RENDER), k,
+                   len(__import__('mc.alphabets').alphabets.SPECIAL_CHARS),
+                   len(hist_ops(2))),
         'bound': 'k=%d deviations per tree; histories of <= %d edits between two generate_stats() calls' % (k, 2 if tier == 'quick' else 3),
         'exhaustive': True,
         'assumptions': ['declared line endings are truthful (content uses '
@@ -588,6 +638,29 @@ def run_unit(unit, tier):
                                                  'second': second})
                     acc.outcome('ok' if not viols else 'violation')
         acc.sample({'scale_hunks': nh, 'renderings': len(SCALE_RENDER)}, 1)
+        return acc
+    if unit[0] == 'chars':
+        from mc.alphabets import SPECIAL_CHARS
+        for cp in SPECIAL_CHARS[unit[1]:unit[2]]:
+            if cp in (0x0A, 0x0D):
+                continue        # these ARE line structure
+            for ri in range(len(RENDER)):
+                for typed in (False, True):
+                    viols = check_char(cp, ri, typed)
+                    if viols is None:
+                        continue
+                    acc.evals += 1
+                    acc.states += 1
+                    acc.transitions += 2
+                    acc.validated += 1
+                    acc.nontrivial += 1
+                    for key, msg in viols:
+                        acc.violation(key, msg, {'kind': 'char', 'cp': cp,
+                                                 'ri': ri, 'typed': typed})
+                    acc.outcome('ok' if not viols else 'violation')
+        acc.sample({'special_characters': ['U+%04X' % c for c in
+                                           SPECIAL_CHARS[unit[1]:unit[2]]]},
+                   1)
         return acc
     if unit[0] == 'hist':
         _, base, a = unit
@@ -653,6 +726,9 @@ def replay(payload):
     if payload.get('kind') == 'scale':
         return [{'key': k, 'msg': m} for k, m in check_scale(
             payload['nh'], payload['ri'], payload['le'], payload['second'])]
+    if payload.get('kind') == 'char':
+        return [{'key': k, 'msg': m} for k, m in (check_char(
+            payload['cp'], payload['ri'], payload['typed']) or [])]
     if payload.get('kind') == 'hist':
         ops = [tuple(o) for o in from_jsonable(payload['ops'])]
         viols = check_history((2,), payload['vec'], ops)
